@@ -97,7 +97,7 @@ def h_stats(ctx, nbig, stats_cfg, alpha=0.5):
     try:
         out = segmetrics.do_segmetrics(cna, sega, loc, spread, interval, alpha, 4 if alpha == 0.5 else 8)
     except Exception as exc:
-        ctx.claim(False, f"do_segmetrics raised {type(exc).__name__}: {str(exc)[:80]}")
+        ctx.claim(False, f"do_segmetrics raised {type(exc).__name__}", info=str(exc)[:200])
         return
     finally:
         segmetrics.stats = orig_stats
@@ -236,7 +236,7 @@ def h_bintest(ctx, target_only):
     try:
         hits = bintest.do_bintest(cna, sega, alpha, target_only)
     except Exception as exc:
-        ctx.claim(False, f"do_bintest raised {type(exc).__name__}: {str(exc)[:80]}")
+        ctx.claim(False, f"do_bintest raised {type(exc).__name__}", info=str(exc)[:200])
         return
     finally:
         bintest.norm = orig
